@@ -514,7 +514,9 @@ func (p *Path) Append(parts ...interface{}) error {
 		}
 	}
 
-	p.parts = append(p.parts, parts...)
+	// never write into spare capacity: copies of a Path share the backing
+	// array of parts
+	p.parts = append(p.parts[:len(p.parts):len(p.parts)], parts...)
 	return nil
 }
 
